@@ -5,7 +5,7 @@
    Powermap.ValidatorUpdates); an enumerator may return any permutation, and may be a
    different one for every call (the stream [es]). *)
 From Coq Require Import List NArith ZArith Bool Permutation String.
-From Verif Require Import Lib.Bytes Lib.Assoc Model.Powermap Model.App Proofs.AppDet.
+From Verif Require Import Lib.Bytes Lib.Assoc Model.Powermap Model.App Proofs.AppDet Generated.MapRanges.
 Import ListNotations.
 
 (* Two replicas started from the same genesis and fed the same calls return the same
@@ -31,6 +31,14 @@ Proof.
   eapply replicas_agree; eauto. intros k. apply enum_id_ok.
 Qed.
 Print Assumptions C09_no_ambient_input.
+
+(* The places where the model lets the enumeration vary are all the places where the source
+   ranges over a map: the list go/types extracts from rolling-shutter/app on this run
+   (Generated/MapRanges.v) equals the list of modelled sites. A new map iteration in the source
+   breaks this obligation. *)
+Theorem C09_all_map_iterations_modelled : Generated.MapRanges.gen_map_range_sites = modelled_map_range_sites.
+Proof. exact map_range_sites_are_modelled. Qed.
+Print Assumptions C09_all_map_iterations_modelled.
 
 (* Voting.Outcome never indexes Candidates out of range. *)
 Theorem C09_outcome_never_panics : forall (T : Type) e (v : voting T) req, outcome e v req <> Some None.
